@@ -276,6 +276,7 @@ class RDDM(BaseSPCError):
                     ):
                         self.rddm_drift = True
                         self.drift = True
+                        self.warning = False
                         self.predictions.maintain_last_element()
                     else:
                         # Warning
